@@ -36,7 +36,7 @@ func init() {
 			"value-carrying CALLs cost >= 5e5 gas here (chain fee), so programs with value transfers are swept at instruction boundaries + samples, not at every gas value",
 		},
 		QuickRuns: 3000, QuickBudget: 55 * time.Second,
-		ThoroughRuns: 60000, ThoroughBudget: 18 * time.Minute,
+		ThoroughRuns: 40000, ThoroughBudget: 18 * time.Minute,
 		Run: run,
 	})
 }
@@ -583,7 +583,9 @@ func (r *runner) judgeTemplate(rq request, x *result, d string) bool {
 		return c.Violate("atomicity", "atomicity/"+what+"/logs", "%s: the %s child frame failed but %d logs exist (want exactly the parent's one)", d, what, len(x.logs))
 	}
 	if x.otxs > 1 {
-		c.Probe("balance-records-kept-from-failed-frame")
+		// the top-level transfer accounts for one record; anything beyond it was
+		// appended by the failed frame (only opCall trims evm.otxs)
+		c.Probe("balance-records-kept-from-failed-" + kindNames[r.kind])
 	}
 	return false
 }
